@@ -2,6 +2,15 @@
 """Regenerates /verif/MANIFEST.json from the table below (one row per claimed property)."""
 import json, subprocess
 CHECKS = {
+ "C10": ("B+A", "explicit-state BFS over rule histories with the staged-vs-one-shot law checked on every edge through the public API; exhaustive regrouping of every short history; every split point of the shipped example projects",
+         "For every state of the BFS over the 66-rule alphabet (reached by its shortest history) and every further rule, run(h.r)(w) is compared with run(r)(render(run(h)(w))); by induction over the BFS tree this covers every split point of every explored history. Every history of 2 (3) rules is run in every grouping into rule groups with an empty group at every position. The germanic and indo-iranian example projects (frozen and live copies, with the pie.alias deromaniser) are split at every rule-group boundary for every word.",
+         "Through asca::run only (text in, text out). Cases whose intermediate rendering contains � or whose prefix errors are skipped and counted. The americanist flag is a known finding confined to its own box of seeds.", "DESIGN.md §5 C10"),
+ "C11": ("A", "exhaustive enumeration of ordered word lists (all lists of <= 3 pool words, hence all permutations and sublists) and multi-word lines x rule lists; oracle: element-wise agreement with single-word runs",
+         "Every ordered list of 1..3 words of a 10-word pool (including words that fail at parse and words that fail at apply) and every line of two or three words, under every rule (thorough: every ordered pair of rules) of a 40-rule pool: the list result must equal the single-word results in order, a line the single results joined by one space, a failing list the error of its first failing word.",
+         "Public API only. Lists mixing parse-phase and apply-phase failures only have to fail. Bounded by the pools.", "DESIGN.md §5 C11"),
+ "C16": ("A", "exhaustive enumeration of rule-group lists x phrases; trace_changes / get_trace_string / run compared with a structural reference that applies the groups one by one",
+         "Every list of 1..2 (3) single-rule groups over a 24-rule pool, lists with two-rule groups, empty and comment-only groups, on 9 phrases of one and two words: reported indices strictly increasing and exactly the groups that change the phrase, each reported state equal to the structural application of groups 0..i, last state rendering equal to run, Err iff run is Err, printed trace equal to the same sequence.",
+         "Reference = verif::apply_group group by group (same interpreter, different driver loop): the property is about the trace loop in lib.rs, not the interpreter. Bounded by the pools.", "DESIGN.md §5 C16"),
  "C02": ("A", "bounded-exhaustive enumeration of four input families (full rule grammar, distance-1 token mutations of a rule corpus, all short strings over a noise alphabet, numeric literals) under a deterministic step budget; every case through compile, Rule::apply, run, trace_changes and get_trace_string",
          "Every rule of rulegen(3) (thorough: rulegen(4), 106 M calls) x hand-shaped words, every multi-element substitution over length/set/variable items, every rule at token-edit distance 1 from a frozen corpus, every string of <= 3 (4) characters over 48 characters as rule, word and both alias kinds, and over-large numerals in every numeric position are run under a tick budget that turns a non-advancing loop into a located failure. The pinned tree has many genuine C02 defects; they are listed in known_findings.json by call site (panics) or rule shape (hangs) so that any new crash class is a violation.",
          "A hang is decided by a step budget (2000 + 20(|w|+1)(|r|+1) loop iterations; terminating cases in the boxes use < 5% of it), not by a clock. Stack overflow or allocation failure would abort the check rather than pass. Known hang classes are identified by rule shape, so a new hang inside an already listed shape class is not distinguished.", "DESIGN.md §5 C02"),
